@@ -102,7 +102,7 @@ func H_Modules() {
 			// two plain adds of the same slot would make the later one a duplicate: fine, that is a failing entry too
 		}
 	}
-	shape := vrt.Pick("shape", 0, 2)
+	shape := vrt.Pick("shape", 0, 5)
 	// shape 0: m0[e0, m1[e1, m2[e2]], e3]   depths 1,2,3,1
 	// shape 1: m0[e0, e1, e2, e3]            depths 1,1,1,1
 	// shape 2: AddModules(e0, m1[e1, e2], nil, e3)   depths 0,1,1,0 (bare entries at top level)
@@ -129,8 +129,26 @@ func H_Modules() {
 		depth = [4]int{0, 1, 1, 0}
 		names = [4][]string{nil, {"m1"}, {"m1"}, nil}
 		top = []godi.ModuleOption{es[0].option(), godi.NewModule("m1", []godi.ModuleOption{es[1].option(), nil, es[2].option()}...), nil, es[3].option()}
+	case 3: // a list of exactly one (possibly nil) bare entry
+		names = [4][]string{nil, nil, nil, nil}
+		vrt.Assume(es[1].kind == eNil && es[2].kind == eNil && es[3].kind == eNil)
+		top = []godi.ModuleOption{es[0].option()}
+	case 4: // a list of exactly one module holding exactly one (possibly nil) entry
+		depth = [4]int{1, 0, 0, 0}
+		names = [4][]string{{"m0"}, nil, nil, nil}
+		vrt.Assume(es[1].kind == eNil && es[2].kind == eNil && es[3].kind == eNil)
+		top = []godi.ModuleOption{godi.NewModule("m0", []godi.ModuleOption{es[0].option()}...)}
+	case 5: // the empty list
+		vrt.Assume(es[0].kind == eNil && es[1].kind == eNil && es[2].kind == eNil && es[3].kind == eNil)
+		top = nil
 	}
-	err1 = c1.AddModules(top...)
+	var panicked bool
+	var pv any
+	panicked, pv = guard(func() { err1 = c1.AddModules(top...) })
+	vrt.Assert(!panicked, "C20.panic", "AddModules panicked:", pv)
+	if panicked {
+		return
+	}
 	// the twin: direct calls, left to right, stop at the first failure
 	c2 := godi.NewCollection()
 	var err2 error
